@@ -6,7 +6,7 @@ os.chdir('/verif')
 env = dict(os.environ, VERIF_DIR='/verif', VERIF_SEED='1')
 kept = dropped = 0
 types_rs = open('/verif/harness/generated/src/types.rs').read()
-for d in sorted(glob.glob('/verif/seeded/*/replays')):
+for d in sorted(glob.glob('/verif/seeded/*/replays') + glob.glob('/verif/seeded/*/replays_own')):
     sid = os.path.basename(os.path.dirname(d))
     per_prop = {}
     for f in sorted(glob.glob(d + '/*.json')):
@@ -16,7 +16,9 @@ for d in sorted(glob.glob('/verif/seeded/*/replays')):
         if prop in (None, 'C16', 'C20'): continue
         if per_prop.get(prop, 0) >= 3: continue
         c = j.get('case', {})
-        if isinstance(c, dict) and c.get('origin') == 'gen' and c.get('type_source', '').strip() not in types_rs:
+        # cases over the per-seed generated program set would go stale with the next generator change:
+        # only cases over std, hand-written and FROZEN generated types are promoted
+        if isinstance(c, dict) and c.get('origin') == 'gen':
             dropped += 1; continue
         r = subprocess.run(['/verif/target/debug/dv_check', '--replay', f], capture_output=True, text=True, env=env)
         if r.returncode != 0:
@@ -27,4 +29,4 @@ for d in sorted(glob.glob('/verif/seeded/*/replays')):
         j['found_under_seeded_change'] = sid
         json.dump(j, open(f'/verif/replays/regressions/{name}', 'w'), indent=1)
         kept += 1
-print(f"promoted {kept} case(s); {dropped} not promoted (other program set or not holding on the unchanged tree)")
+print(f"promoted {kept} case(s); {dropped} not promoted (per-seed program set or not holding on the unchanged tree)")
